@@ -105,7 +105,33 @@ def rw_R8(text):
     return pat.sub(lambda m: _keep_lines(m.group(0)), text), n
 
 
-REWRITES = {'R1': rw_R1, 'R2': rw_R2, 'R3': rw_R3, 'R4': rw_R4, 'R5': rw_R5, 'R8': rw_R8}
+def rw_R9(text):
+    """RECV.map(|PAT| BODY)  ->  (match RECV { Some(PAT) => Some(BODY), None => None })   for a simple-path receiver"""
+    n = 0
+    out = text
+    pos = 0
+    while True:
+        msk = rsx.mask(out)
+        m = re.compile(r'\b([A-Za-z_][A-Za-z0-9_]*)\s*\.\s*map\(\s*\|').search(msk, pos)
+        if not m:
+            break
+        recv = m.group(1)
+        po = msk.index('(', m.start())
+        pc = rsx.match_close(msk, po)
+        bar1 = msk.index('|', po)
+        bar2 = msk.index('|', bar1 + 1)
+        pat = out[bar1 + 1:bar2].strip()
+        body = out[bar2 + 1:pc].strip()
+        new = '(match %s { Some(%s) => Some(%s), None => None })' % (recv, pat, body)
+        # keep the line count
+        lost = out[m.start():pc + 1].count('\n') - new.count('\n')
+        out = out[:m.start()] + new + ('\n' * max(0, lost)) + out[pc + 1:]
+        pos = m.start() + len(new)
+        n += 1
+    return out, n
+
+
+REWRITES = {'R9': rw_R9, 'R1': rw_R1, 'R2': rw_R2, 'R3': rw_R3, 'R4': rw_R4, 'R5': rw_R5, 'R8': rw_R8}
 REWRITE_DOC = {
     'R1': 'for &T{f,..} in &E[a..b]  ->  for __i in a..b { let f = E[__i].f; (Verus: no ref patterns)',
     'R2': 'Some(&b) => b  ->  Some(b) => *b (Verus: no ref patterns)',
@@ -115,6 +141,8 @@ REWRITE_DOC = {
     'R6': 'impl Trait for X { fn f } extracted as inherent fn (trait header and `type Item` dropped; Self::Item spelled out)',
     'R7': 'visibility modifiers / attributes / doc comments of extracted items dropped; struct fields made pub',
     'R8': 'dropped: #[cfg(all(test, feature = "std"))] PATTERN_MAPPING statement',
+    'R9': 'RECV.map(|PAT| BODY) -> match RECV { Some(PAT) => Some(BODY), None => None } (Verus cannot reason about un-annotated closures)',
+    'ARMSUB': 'a named match arm (delegation to regex-automata) is replaced by a call to an assumed shim; the dropped text is listed in dropped_code',
 }
 
 
@@ -294,6 +322,20 @@ class UnitBuilder:
             body = body[:st] + b + _keep_lines(body[st:en]) + body[en:]
             self.hit('S:' + a[:30], where, 1)
 
+        for hdr, pat, repl in opts.get('armsub', []):
+            B0 = rsx.Body(body)
+            blks = [b for b in B0.match_blocks() if hdr in b['header']]
+            if len(blks) != 1:
+                raise BuildError('%s: armsub: %d match blocks with header containing %r' % (where, len(blks), hdr))
+            arms = [x for x in B0.arms(blks[0]) if x['pat'].startswith(pat)]
+            if len(arms) != 1:
+                raise BuildError('%s: armsub: %d arms starting with %r' % (where, len(arms), pat))
+            arm = arms[0]
+            a0, a1 = arm['body_start'], (arm['body_end'] + 1 if arm['block'] else arm['body_end'])
+            old = body[a0:a1]
+            self.dropped.append(dict(where=where, arm=arm['pat'], dropped=norm(old)[:400], replaced_by=repl))
+            body = body[:a0] + '{ ' + repl + ' }' + _keep_lines(old) + body[a1:]
+            self.hit('ARMSUB', where + ' ' + pat, 1)
         B = rsx.Body(body)
         ins = []   # (pos, order, text, origin)
         order = 0
@@ -511,6 +553,12 @@ class UnitBuilder:
                                     raise BuildError('%s:%d bad sub directive' % (tname2, L2))
                                 opts[mm.group(1)].append((mm.group(2), mm.group(3)))
                                 cur = None
+                            elif d2.startswith('armsub '):
+                                mm = re.match(r'armsub\s+(.*?)\s*\|\s*(.*?)\s*=>\s*(.*)$', d2)
+                                if not mm:
+                                    raise BuildError('%s:%d bad armsub directive' % (tname2, L2))
+                                opts.setdefault('armsub', []).append((mm.group(1), mm.group(2), mm.group(3)))
+                                cur = None
                             elif d2.startswith('attrs '):
                                 opts['attrs'] = d2[6:].strip()
                                 cur = None
@@ -540,7 +588,7 @@ class UnitBuilder:
         return text
 
     def meta(self):
-        return dict(template=self.tpath, functions=self.functions, items=self.items, includes=getattr(self, 'includes', []),
+        return dict(template=self.tpath, functions=self.functions, items=self.items, includes=getattr(self, 'includes', []), dropped=self.dropped,
                     rewrite_hits=self.rewrite_hits, origin=self.out.origin)
 
 
